@@ -42,6 +42,23 @@ def enumMain : IO UInt32 := do
   for l in sorted do IO.println l
   return 0
 
+/-- ghost classification of a short history (names a bias finding; never decides pass/fail) -/
+def classifyMain : IO UInt32 := do
+  let stdin ← IO.getStdin
+  let lines ← readAll stdin #[]
+  let mut maxFlips := 12
+  let mut ops : Array Op := #[]
+  for w in lines do
+    match w with
+    | ["maxflips", n] => maxFlips := n.toNat?.getD 12
+    | _ => match parseOp w with
+      | some (some op) => ops := ops.push op
+      | _ => pure ()
+  let used := truncateOps reqTun secF32 ops.toList maxFlips
+  let r := run reqTun secF32 used []
+  IO.println s!"oddconst={boolStr r.2.oddConst} ops={used.length} flips={r.2.used}"
+  return 0
+
 /-- for every even k in [minK, 254] the schedule raw ↦ raw/√2 keeps `2·ne(next r) ≥ ne r` while ne(next r) ≥ minK, and ne(float k) = k -/
 def selftest : IO UInt32 := do
   let mut bad := 0
@@ -65,4 +82,5 @@ def main (args : List String) : IO UInt32 := do
   | ["req"] => runDriver ({} : DState Float32) (stepLine reqTun secF32 reqRse)
   | ["enum"] => enumMain
   | ["selftest"] => selftest
+  | ["classify"] => classifyMain
   | _ => IO.eprintln "usage: dsmodel_req req|enum|selftest"; return 2
